@@ -6,7 +6,7 @@ import json, os, sys, glob
 sys.path.insert(0, os.path.join(os.path.dirname(os.path.dirname(os.path.abspath(__file__))), "tools"))
 import frrparse as fp
 
-CLOSURE = ["Model/FrrAst.v", "Model/FrrRender.v", "Model/FrrSem.v", "Proofs/FrrSortP.v", "Proofs/FrrP.v"]
+CLOSURE = ["Model/FrrAst.v", "Model/FrrRender.v", "Model/FrrSem.v", "Proofs/FrrSortP.v", "Proofs/FrrP.v", "Proofs/FrrListsP.v"]
 COQ_FILES = ["Corr/Run_Frr.v"]
 PKG = "internal/bgp/frr"
 EXTRA_ROUTES = ["203.0.113.0/24", "2001:db8:ffff::/48"]
